@@ -3,6 +3,9 @@
 set -u
 ID=$1; shift
 cd /verif
+touch /verif/.seedlock
+trap 'rm -f /verif/.seedlock' EXIT
+while pgrep -f "python3 /verif/check" > /dev/null; do sleep 5; done
 git -C /repo diff --quiet || { echo "/repo is dirty"; exit 2; }
 git -C /repo apply /verif/seeded/$ID/patch.diff || exit 2
 for P in "$@"; do
